@@ -177,7 +177,27 @@ func ArgSweep(r *fw.Run, chk Checker, maxLen int) {
 		}
 	}
 	rec("", 0)
-	r.Bounds["argument_sweep"] = fmt.Sprintf("%d directory arguments (<= %d pieces of %d) x {AddReplace on 2 go.mod seeds, AddUse on a go.work seed}", len(args), maxLen, len(ArgAlphabet))
+	// a use directory may contain backslashes (go.work files travel between systems): the same sweep with
+	// the backslash as one more piece, for AddUse only
+	nMod := len(args)
+	{
+		var rec2 func(cur string, n int, has bool)
+		rec2 = func(cur string, n int, has bool) {
+			if n > 0 && has {
+				args = append(args, cur)
+			}
+			if n == maxLen {
+				return
+			}
+			for _, a := range ArgAlphabet {
+				rec2(cur+a, n+1, has)
+			}
+			rec2(cur+"\\", n+1, true)
+		}
+		rec2("", 0, false)
+	}
+	r.Bounds["argument_sweep_backslash"] = fmt.Sprintf("%d further AddUse arguments that contain a backslash", len(args)-nMod)
+	r.Bounds["argument_sweep"] = fmt.Sprintf("%d directory arguments (<= %d pieces of %d) x {AddReplace on 2 go.mod seeds, AddUse on a go.work seed}", nMod, maxLen, len(ArgAlphabet))
 	modSeeds := []string{"module example.com/m\n", "module example.com/m\n\ngo 1.21\n\nreplace (\n\tb.com/y => ../y\n\tc.com/z v1.0.0 => ../z\n)\n"}
 	workSeed := "go 1.21\n\nuse ./a\n"
 	fw.Parallel(16, func(sh int) {
@@ -186,6 +206,9 @@ func ArgSweep(r *fw.Run, chk Checker, maxLen int) {
 		for i := sh; i < len(args); i += 16 {
 			var cases []Case
 			for si, seed := range modSeeds {
+				if i >= nMod {
+					break
+				}
 				cases = append(cases, Case{Work: false, Seed: seed, SeedIdx: 100 + si, Hist: []Op{{Kind: "AddReplace", A: []string{"a.com/x", "", "../" + args[i], ""}}}, Check: "state"})
 			}
 			cases = append(cases, Case{Work: true, Seed: workSeed, SeedIdx: 100, Hist: []Op{{Kind: "AddUse", A: []string{"./" + args[i], ""}}}, Check: "state"})
